@@ -12,6 +12,7 @@ CONSTANTS
   EnvAtQuiet = FALSE
   GenNoFaults = FALSE
   GenHold = 0
+  MaxPhantom = 1000000
 SPECIFICATION TSpec
 CONSTRAINT Mark
 INVARIANTS TypeOK SlotRange CapacityHonoured ReleasedAtMostOnce ReleasedAtEnd NoEarlyRelease RetNeverBlocks CounterMatches ReportedOK RelayPolicy FullCapacityAgain
